@@ -61,6 +61,8 @@ class ToolOps(StepOps):
         self.truths: Dict[Any, bool] = truths or {}
         self.ranks: Dict[Any, int] = ranks or {}
         self.seq_items: Dict[int, List[Any]] = {}
+        self._cmp_env: Optional[Dict[str, Any]] = None
+        self.undecided = False  # a primitive of the model gave up (unknown ordering, unknown container): the cell is not decided
         self._wrappers: Dict[str, Any] = {}
         self.lambdas: Dict[int, ast.Lambda] = {}
 
@@ -132,6 +134,8 @@ class ToolOps(StepOps):
         return super().call(func, args, kwargs, node, env)
 
     def binop(self, op, left, right, env):
+        if op == "BitXor" and isinstance(left, bool) and isinstance(right, bool):
+            return left ^ right
         r = super().binop(op, left, right, env)
         if r is UNKNOWN and op == "Add" and left is not UNKNOWN and right is not UNKNOWN:
             return ("+", left, right)  # user-defined addition, kept symbolic (operand order matters)
@@ -255,11 +259,13 @@ class ToolOps(StepOps):
             return UNKNOWN
 
         keys = [key_of(x) for x in items]
+        self._cmp_env = env
         try:
             if not isinstance(reverse, bool) or any(k is UNKNOWN for k in keys):
                 raise _Undecided()
             order = sorted(range(len(items)), key=lambda i: _W(self, keys[i]), reverse=reverse)
         except _Undecided:
+            self.undecided = True
             self._set(env, base, [UNKNOWN for _ in items])
             return False
         self._set(env, base, [items[i] for i in order])
@@ -347,6 +353,7 @@ class ToolOps(StepOps):
                 import heapq as _hq
                 base = ev.eval(call.args[0], env)
                 if self._is_list(base):
+                    self._cmp_env = env
                     heap = [_W(self, x) for x in self._get(env, base)]
                     extra = [_W(self, ev.eval(a, env)) for a in call.args[1:]]
                     try:
@@ -355,6 +362,7 @@ class ToolOps(StepOps):
                         self._set(env, base, [w_.v for w_ in heap])
                     except (_Undecided, IndexError):
                         result = UNKNOWN
+                        self.undecided = True
                         self._set(env, base, [UNKNOWN for _ in heap])
                     vals = dict(env.get("@callvals", {}))
                     vals[id(call)] = result
@@ -771,6 +779,10 @@ AGGREGATES: List[Tuple[str, Callable[[], Any]]] = [
     ("builtins.tuple", lambda: _collect_cells(tuple)),
     ("builtins.set", lambda: _collect_cells(set)),
     ("builtins.sorted", _sorted_cells),
+]
+# evaluated on the object model (rules/objmodel.py): the key wrapper is a library class whose own
+# __lt__ / __eq__ order the heap entries
+OBJECT_AGGREGATES: List[Tuple[str, Callable[[], Any]]] = [
     ("heapq.nlargest", lambda: _nbest_cells("nlargest")),
     ("heapq.nsmallest", lambda: _nbest_cells("nsmallest")),
 ]
@@ -943,6 +955,15 @@ def aggregate_tables(ctx, rid: str, fields=RESULT_AND_CALLS) -> None:
                   "start); the result (the very item, the symbolic sum with its operand order), the items taken, the calls "
                   "of the user's callable and the exception class equal those of the stdlib function executed on the same symbols")
     _tables(ctx, rid, AGGREGATES, "coroutine", "agg_cells", fields)
+    from . import objmodel
+
+    def factory(ctx_, u, cell):
+        ops = objmodel.make_ops(ctx_, u, cell.lengths, cell.items, cell.fns)
+        ops.ranks = cell.ranks or {}
+        ops.truths = cell.truths or {}
+        return ops
+
+    _tables(ctx, rid, OBJECT_AGGREGATES, "coroutine", "agg_cells", fields, make_ops=factory)
 
 
 def tool_tables(ctx, rid: str, fields=CONSUMPTION) -> None:
@@ -954,7 +975,7 @@ def tool_tables(ctx, rid: str, fields=CONSUMPTION) -> None:
     _tables(ctx, rid, TOOLS, "asyncgen", "tool_cells", fields)
 
 
-def _tables(ctx, rid: str, tools, kind: str, counter: str, fields=ALL) -> None:
+def _tables(ctx, rid: str, tools, kind: str, counter: str, fields=ALL, make_ops=None) -> None:
     for short, cells in tools:
         if not ctx.pkg.has_unit(short):
             ctx.note(f"{rid}: {short} no longer exists under this name; not tabulated")
@@ -969,13 +990,16 @@ def _tables(ctx, rid: str, tools, kind: str, counter: str, fields=ALL) -> None:
         for cell in cells():
             total += 1
             ctx.count(counter)
-            ops = ToolOps(ctx, u, cell.lengths, cell.items, cell.fns, cell.truths, cell.ranks)
+            if make_ops is not None:
+                ops = make_ops(ctx, u, cell)
+                resolver = ops.resolver
+            else:
+                ops = ToolOps(ctx, u, cell.lengths, cell.items, cell.fns, cell.truths, cell.ranks)
+                resolver = make_resolver(ctx, u, ops, skip=("aiter", "iter", "borrow", "anext", "awaitify"), coroutines=True)
             env = _bind(ctx, u, ops, cell)
             if env is None:
                 continue
-            machine = Machine(cfg, ops, max_steps=3000,
-                              resolver=make_resolver(ctx, u, ops, skip=("aiter", "iter", "borrow", "anext", "awaitify"),
-                                                     coroutines=True))
+            machine = Machine(cfg, ops, max_steps=6000 if make_ops is not None else 3000, resolver=resolver)
             want = _expected(short, cell)
             name = short.split(".")[-1]
             std = STDLIB_NAME.get(short, name)
@@ -986,14 +1010,14 @@ def _tables(ctx, rid: str, tools, kind: str, counter: str, fields=ALL) -> None:
             try:
                 outs = machine.run(env, halt=halt)
             except AnalysisError:
-                if not machine.forked and want[3] != "endless":
+                if not machine.forked and not ops.undecided and want[3] != "endless":
                     bad += 1
                     decided += 1
                     if bad <= 2:
                         ctx.fail(rid, real, name, f"[{name}: {cell.label}] the evaluation does not reach the end of the generator: "
                                  f"it keeps running where the stdlib {std} stops")
                 continue
-            if len(outs) != 1:
+            if len(outs) != 1 or ops.undecided or outs[0].env.get("@undecided"):
                 continue
             decided += 1
             ctx.count(counter + "_decided")
@@ -1032,7 +1056,7 @@ def _tables(ctx, rid: str, tools, kind: str, counter: str, fields=ALL) -> None:
 def _show(v) -> str:
     def one(x):
         if isinstance(x, tuple) and x[:1] == ("item",) and len(x) == 3:
-            return f"x{x[2]}"
+            return f"{'xyzuvw'[x[1]] if isinstance(x[1], int) and x[1] < 6 else 's'}{x[2]}"  # x: first source, y: second, ...
         if isinstance(x, (tuple, list)):
             return "(" + ", ".join(one(y) for y in x) + ")"
         return str(x)
